@@ -92,7 +92,7 @@ def _(self: DefaultScheduler, config: FilterConfig) -> BindingFilter:
     ensures(result == the_filter(config.name))
 
 
-@extern("BindingFilter.get_targets")
+@extern("BindingFilter.get_targets", final=True)  # abstract summary of every filter implementation
 def _(self: BindingFilter, job: Job, targets: List[Target]) -> List[Target]:
     ensures(identical(result, flt(self, job, targets)))
     raises(WorkflowExecutionException)
